@@ -120,9 +120,16 @@ func main() {
 			}
 		case "peers":
 			items := make([]pex.Peer, n)
+			// a peer list may hold addresses that have no wire form (IPv6, junk from an old peers file): they are skipped, and the
+			// message is the longest fitting prefix of the REST (of the first 512 peers)
+			mixed := rng.Intn(3) == 0
 			for k := range items {
 				items[k] = pex.Peer{Addr: fmt.Sprintf("%d.%d.%d.%d:%d", 1+rng.Intn(200), rng.Intn(256), rng.Intn(256), 1+rng.Intn(250), 1024+rng.Intn(60000))}
-				sizes = append(sizes, 6)
+				if mixed && rng.Intn(8) == 0 {
+					items[k] = pex.Peer{Addr: []string{"[2001:db8::1]:6000", "[::1]:7000", "not an address", "1.2.3.4"}[rng.Intn(4)]}
+				} else if k < 512 {
+					sizes = append(sizes, 6)
+				}
 			}
 			empty, itemCap = len(encoder.Serialize(daemon.GivePeersMessage{})), 512
 			build = func(max uint64) (gnet.Message, int) {
